@@ -14,7 +14,8 @@ META = {
              "{-1, -n, -n-1, far negative, n, n+1, last padded index, padded size, far positive, empty range, reversed "
              "range, coordinate between axis values / far outside / exactly one step before the first or after the last label, with labels up to 1e7 and the int32 end}; outcome must be IndexError (or the dimensionality error "
              "for a 2D/3D mismatch), or for a negative ordinal exactly the real item Python indexing denotes; anything "
-             "else is classified returned-data or wrong-exception; non-trivial = offending component in the "
+             "else is classified returned-data or wrong-exception; one case in two makes valid reads of the last and / or "
+             "first real items through the same reader just before the call under test; non-trivial = offending component in the "
              "padded-but-not-real zone or a negative ordinal; distinct = (file kind, method, position of the bad "
              "component, class)"),
     "assumptions": [
@@ -80,7 +81,8 @@ def cases(draw, ctx, two_d=False):
     return {"file": desc, "m": m, "axis": draw(st.integers(0, 2)), "ord": draw(st.sampled_from(BAD_ORD)),
             "rng": draw(st.sampled_from(BAD_RANGE)), "u": [draw(st.floats(0, 1, exclude_max=True)) for _ in range(4)],
             "coord": draw(st.sampled_from(["between", "below", "above", "stop+1", "stop", "start-1", "zero"])),
-            "argt": draw(st.sampled_from(ops.ARG_FLAVOURS))}
+            "argt": draw(st.sampled_from(ops.ARG_FLAVOURS)),
+            "warm": draw(st.sampled_from([None, None, "last", "first", "both"]))}
 
 
 def off_axis(ax, how):
@@ -125,6 +127,27 @@ def classify(outcome, value, allowed_items, what, case):
             if g.size == a.size and codec.bits_equal(g.astype(np.float32).reshape(-1), a.astype(np.float32).reshape(-1)):
                 return "real-item" if a.size else "empty"
     raise Violation(f"returned-data:{case['m']}", f"{what}: returned an array of shape {g.shape} for an out-of-range request")
+
+
+def warm_up(r, T, how):
+    """State that is not in the arguments: valid reads made through the same reader just before the call under test
+    (the last real item of each axis, next to the padding, and / or the first one).  What they leave in the reader
+    (cached chunks, remembered groups) must not let the refused call through.  Their own results are C02's subject."""
+    if not how:
+        return
+    for end in {"last": [-1], "first": [0], "both": [0, -1]}[how]:
+        try:
+            if T.is_2d:
+                i = end % T.n_tr
+                r.get_trace(i); r.gen_trace_header(i)
+                r.read_subplane(max(0, i - 1), min(T.n_tr, i + 1), max(0, T.n_s - 2) if end else 0, T.n_s if end else min(2, T.n_s))
+            else:
+                i = end % r.tracecount
+                r.get_trace(i); r.gen_trace_header(i)
+                r.read_inline(end % T.n_il); r.read_crossline(end % T.n_xl); r.read_zslice(end % T.n_s)
+                r.read_correlated_diagonal(0); r.read_anticorrelated_diagonal(0)
+        except Exception:
+            pass
 
 
 def run_case(case, ctx):
@@ -321,6 +344,7 @@ def run_case(case, ctx):
                     call = lambda: r.read_anticorrelated_diagonal(d, min_ad_idx=a, max_ad_idx=b)
             else:
                 raise ValueError(m)
+        warm_up(r, T, case.get("warm"))
         try:
             outcome, value = "ok", call()
         except Exception as e:
